@@ -604,6 +604,17 @@ class Truth:
                 "markers": dict(self.markers)}
 
 
+def history_walk(steps):
+    """(k, event, truth after it, run ids to probe after it)"""
+    t = Truth()
+    seen: set[str] = set()
+    for k, ev in enumerate(steps):
+        t.apply(ev)
+        fresh = [r for r in t.runs if r not in seen]
+        seen.update(fresh)
+        yield k, ev, t, (list(t.runs) if k == len(steps) - 1 else fresh)
+
+
 def ev_line(ev: list) -> str:
     kind, uid = ev[0], Engine.uid(ev[1])
     if kind in ("connect", "uod"):
@@ -613,11 +624,13 @@ def ev_line(ev: list) -> str:
     return "\t".join(["ev", "disc", enc(uid)])
 
 
-def probes_after(truth: Truth, rows: list[dict], user_sets) -> list[dict]:
-    """Every route x every unit that is or was connected / every stored run x every user-role set; every listing."""
+def probes_after(truth: Truth, rows: list[dict], user_sets, run_ids=None) -> list[dict]:
+    """Every route x every unit that is or was connected / every stored run x every user-role set; every listing.
+    `run_ids`: the stored runs to probe at this step (a stored run never changes: the histories probe it when it
+    appears and again at the end)."""
     out = []
     unit_ids = list(truth.units) + list(truth.offline)
-    run_ids = list(truth.runs)
+    run_ids = list(truth.runs) if run_ids is None else run_ids
     for i, row in enumerate(rows):
         t = row["target"]
         if t in ("unit", "run") and row.get("id_in") not in ("path", "query", "lsp-init"):
@@ -764,34 +777,9 @@ def run(ctx: Check) -> int:
         pools = c["world"]["units"] + c["world"]["runs"]
         return any(i == c["id"] and r for i, r in pools) or out[0].startswith("list")
 
-    _, mo = ctx.correspond("requests", "Access", cases, lambda c: [line("req", c)], impl, nontrivial, impl_timeout=30)
-    for c in cases:
-        ctx.count(("lsp:" if rows[c["route"]]["router"] == "lsp" else "") + rows[c["route"]]["target"])
-    if mo:
-        ctx.selftest("requests", "Access", cases[:3000], lambda c: [line("reqmut", c)], mo[:3000])
-    phase("static-requests")
     # has_access itself, exhaustively over small role sets of a universe with case variants, blanks and
     # super-user-like names (pure function; every run)
     acc_cases = has_access_cases(ctx)
-    _, acc_mo = ctx.correspond("has_access", "Access", acc_cases,
-                               lambda c: ["\t".join(["acc", roles_wire(c["required"]), roles_wire(c["user"])])],
-                               lambda c: ["1" if has_access_impl(c) else "0"],
-                               nontrivial=lambda c, o: bool(c["required"]))
-    if acc_mo:
-        ctx.selftest("has_access", "Access", acc_cases[:2500],
-                     lambda c: ["\t".join(["accmut", roles_wire(c["required"]), roles_wire(c["user"])])], acc_mo[:2500])
-    for c in acc_cases:
-        R, U = set(c["required"]), set(c["user"])
-        r = has_access_impl(c)
-        if R and not (R & U) and r:
-            fails.append(Failure("has-access-grants-without-role", c,
-                                 f"has_access(required_roles={c['required']}, user_roles={sorted(U)}) is True"))
-        elif not R and not r:
-            fails.append(Failure("has-access-denies-open-object", c,
-                                 f"has_access(required_roles=[], user_roles={sorted(U)}) is False"))
-    ctx.count("has_access-pairs", len(acc_cases))
-
-    phase("has_access")
     # histories through the real message handlers, probed after every step
     hist_roles = ["A", "B"] if ctx.tier == "quick" else ["A", "B", "C"]
     hists = [c for c in load_corpus("C32") if c.get("kind") == "history"]
@@ -801,28 +789,27 @@ def run(ctx: Check) -> int:
                       "roles": hist_roles})
     engine = Engine(app)
 
+    def acc_line(op, c):
+        return "\t".join([op, roles_wire(c["required"]), roles_wire(c["user"])])
+
     def hist_lines(c):
-        t = Truth()
         out = []
-        for ev in c["steps"]:
-            t.apply(ev)
+        for _, ev, t, run_ids in history_walk(c["steps"]):
             out.append(ev_line(ev))
-            for p in probes_after(t, rows, subsets(c["roles"])):
+            for p in probes_after(t, rows, subsets(c["roles"]), run_ids):
                 out.append("\t".join(["probe", str(p["route"]), enc(p["id"]), roles_wire(p["user"])]))
         return out
 
     def hist_impl(c):
         app.set_world({"units": [], "recent": [], "runs": []})
         current["world"] = None
-        t = Truth()
         out = []
-        for k, ev in enumerate(c["steps"]):
+        for k, ev, t, run_ids in history_walk(c["steps"]):
             engine.apply(ev)
             app.arm_spies()
-            t.apply(ev)
             out.append(engine.state())
             view = t.view()
-            for p in probes_after(t, rows, subsets(c["roles"])):
+            for p in probes_after(t, rows, subsets(c["roles"]), run_ids):
                 before = app.snapshot(p["id"])
                 status, text = app.request(rows[p["route"]], p["id"], p["user"])
                 reads = app.reads()
@@ -835,8 +822,45 @@ def run(ctx: Check) -> int:
             ctx.count("history-step:" + ev[0])
         return out
 
-    ctx.correspond("histories", "Access", hists, hist_lines, hist_impl, impl_timeout=300)
-    phase("histories")
+    def all_lines(c):
+        k = c.get("kind")
+        return hist_lines(c) if k == "history" else [acc_line("acc", c)] if k == "has_access" else [line("req", c)]
+
+    def all_impl(c):
+        k = c.get("kind")
+        if k == "history":
+            return hist_impl(c)
+        if k == "has_access":
+            return ["1" if has_access_impl(c) else "0"]
+        return impl(c)
+
+    def all_nontrivial(c, out):
+        k = c.get("kind")
+        return True if k == "history" else bool(c["required"]) if k == "has_access" else nontrivial(c, out)
+
+    # one driver session for everything (the interpreter's start-up is the expensive part on a busy machine)
+    everything = cases + acc_cases + hists
+    _, mo = ctx.correspond("requests+has_access+histories", "Access", everything, all_lines, all_impl, all_nontrivial,
+                           impl_timeout=300)
+    for c in cases:
+        ctx.count(("lsp:" if rows[c["route"]]["router"] == "lsp" else "") + rows[c["route"]]["target"])
+    ctx.count("has_access-pairs", len(acc_cases))
+    ctx.count("histories", len(hists))
+    if mo:
+        sel = list(range(min(3000, len(cases)))) + list(range(len(cases), len(cases) + min(2500, len(acc_cases))))
+        ctx.selftest("requests+has_access", "Access", [everything[i] for i in sel],
+                     lambda c: [acc_line("accmut", c)] if c.get("kind") == "has_access" else [line("reqmut", c)],
+                     [mo[i] for i in sel])
+    for c in acc_cases:
+        R, U = set(c["required"]), set(c["user"])
+        r = has_access_impl(c)
+        if R and not (R & U) and r:
+            fails.append(Failure("has-access-grants-without-role", c,
+                                 f"has_access(required_roles={c['required']}, user_roles={sorted(U)}) is True"))
+        elif not R and not r:
+            fails.append(Failure("has-access-denies-open-object", c,
+                                 f"has_access(required_roles=[], user_roles={sorted(U)}) is False"))
+    phase("correspondence")
     for f in fails:
         ctx.fail(f)
     ctx.exhaustive = True
